@@ -1151,6 +1151,30 @@ class Interp:
                 if fn.endswith("into_iter"):
                     return as_iter
                 return self.builtin_models(cs, [as_iter] + list(args[1:]))
+        if fn == "core::iter::sources::successors::successors" and len(args) == 2:
+            items_, cur_ = [], d[0]
+            for _ in range(2000):
+                if cur_.k == "variant" and cur_.v == "None":
+                    return Val("iter", items_)
+                if not (cur_.k == "adt" and cur_.extra and cur_.extra[1] == "Some" and cur_.v):
+                    return None
+                items_.append(cur_.v[0])
+                cur_ = self.call_closure(cs, args[1], [Val("ref", cur_.v[0])]).deref()
+            return None
+        if fn == "core::iter::sources::once::once" and args:
+            return Val("iter", [args[0]])
+        if fn == "core::iter::sources::empty::empty":
+            return Val("iter", [])
+        if fn == "core::iter::sources::from_fn::from_fn" and args:
+            items_ = []
+            for _ in range(200):
+                nx_ = self.call_closure(cs, args[0], []).deref()
+                if nx_.k == "variant" and nx_.v == "None":
+                    return Val("iter", items_)
+                if not (nx_.k == "adt" and nx_.extra and nx_.extra[1] == "Some" and nx_.v):
+                    return None
+                items_.append(nx_.v[0])
+            return None
         if fn == "core::iter::traits::collect::IntoIterator::into_iter" and d and (cs.name or "").startswith(("<core::option::Option<", "<&'a core::option::Option<", "<&'a mut core::option::Option<")):
             # `opt.into_iter()`: zero or one item
             if d[0].k == "variant" and d[0].v == "None":
